@@ -1685,3 +1685,8 @@ mod tests {
 
     }
 }
+
+// Verification hook (add-only): compiled only under `cargo kani` or `--cfg heathcliff_verif`.
+#[cfg(any(kani, heathcliff_verif))]
+#[path = "/verif/incrate/multiparty_participant_v.rs"]
+pub(crate) mod verif_v;
